@@ -182,4 +182,15 @@ ENTRIES = {
             "and every table must hold exactly one row per distinct object of its class.",
             "SQLite in-memory through krrood's own create_engine; repeated elements inside one collection are outside the statement.",
             "DESIGN.md section 3 C05"),
+    "C07": ("translation_validation",
+            "three-way differential over an enumerated query grammar x a family of database contents: plain-Python reference = in-memory engine = translated SQL on persisted objects",
+            "4471 queries (scalar comparisons in six operators, in_/contains with literal lists and strings, one- and two-step "
+            "relationship paths, enum literals, attribute-equality joins and cross-variable scalar comparisons, combined with "
+            "and_/or_ up to 3 leaves, quantified with an and the, subclass-typed variables, plus one instance of every construct "
+            "the translator has no case for) are evaluated on 12 (thorough 32) database contents: the entities selected by the "
+            "SQL statement produced by eql_to_sql in a fresh Session must be exactly those the in-memory engine and a plain-Python "
+            "reference select over the original objects, the() must fail in both worlds for the same queries, and anything the "
+            "translator cannot express must raise EQLTranslationError.",
+            "SQLite; references on queried paths are never None; pairs where the in-memory engine disagrees with the reference are left to C01.",
+            "DESIGN.md section 3 C07"),
 }
